@@ -123,6 +123,7 @@ func H_C06_wire() {
 	doCancel := vfParam("cancel", 0)
 	wfail := vfParam("wfail", 0)   // the client's k-th transport write fails once (transient), k = wfail
 	badmsg := vfParam("badmsg", 0) // the caller passes a message the codec cannot marshal
+	zero := vfParam("zero", 0)     // the caller's messages are zero-valued (they encode to zero bytes)
 	var herr error
 	if herrP == 1 {
 		herr = errors.New("handler failed")
@@ -193,10 +194,16 @@ func H_C06_wire() {
 		if badmsg == 1 {
 			cs.SendMsg("not a protobuf message")
 		}
+		mv := func(i int) int32 {
+			if zero == 1 {
+				return 0
+			}
+			return int32(i + 1)
+		}
 		switch cp {
 		case 0:
 			for i := 0; i < n; i++ {
-				cs.SendMsg(&testproto.Msg{Value: int32(i + 1)})
+				cs.SendMsg(&testproto.Msg{Value: mv(i)})
 			}
 			cs.CloseSend()
 			recvAll()
@@ -250,4 +257,72 @@ func (f *zzFailNth) Write(ctx context.Context, r *Rpc) error {
 		return errors.New("transient write failure")
 	}
 	return f.rw.Write(ctx, r)
+}
+
+// H_C04_stream_md: headers and trailers a streaming handler sets reach the caller whatever the
+// way they leave: mode 0 SetHeader only (they leave with the final status, no message sent),
+// 1 SetHeader then one message, 2 SetHeader + SendHeader; herr: the handler returns an error.
+// Values are symbolic (incl. a -bin key with arbitrary bytes), two values under one key.
+func H_C04_stream_md() {
+	mode := vfParam("mode", 0)
+	herrP := vfParam("herr", 0)
+	v1, v2, b1, t1 := vfString("v1", 1), vfString("v2", 1), vfString("b1", 2), vfString("t1", 1)
+	var herr error
+	if herrP == 1 {
+		herr = errors.New("handler failed")
+	}
+	sh := func(srv any, stream grpc.ServerStream) error {
+		stream.SetHeader(metadata.MD{"k": {v1}})
+		stream.SetHeader(metadata.MD{"k": {v2}, "x-bin": {b1}})
+		stream.SetTrailer(metadata.MD{"t": {t1}})
+		switch mode {
+		case 1:
+			if err := stream.SendMsg(&testproto.Msg{Value: 7}); err != nil {
+				return err
+			}
+		case 2:
+			if err := stream.SendHeader(metadata.MD{"late": {"x"}}); err != nil {
+				return err
+			}
+		}
+		return herr
+	}
+	srv := zzNewServer("srv", &zzImpl{}, map[string]grpc.StreamHandler{"BidiStream": sh})
+	c2s := make(chan *Rpc, 2)
+	s2c := make(chan *Rpc, 2)
+	go func() { srv.Serve(context.Background(), NewGoatOverChannel(c2s, s2c)) }()
+	cc := NewClientConn(NewGoatOverChannel(s2c, c2s), "cli", "srv")
+	done := false
+	var hdr, trl metadata.MD
+	var hdrErr, termErr error
+	go func() {
+		cs, err := cc.NewStream(context.Background(), &grpc.StreamDesc{ClientStreams: true, ServerStreams: true}, "/"+zzSvcName+"/BidiStream")
+		if err != nil {
+			return
+		}
+		for {
+			out := new(testproto.Msg)
+			if termErr = cs.RecvMsg(out); termErr != nil {
+				break
+			}
+		}
+		hdr, hdrErr = cs.Header()
+		trl = cs.Trailer()
+		done = true
+	}()
+	vfAtQuiescence(func() {
+		vfAssert(done, "caller-returns")
+		if !done {
+			return
+		}
+		vfAssert((termErr == io.EOF) == (herrP == 0), "outcome")
+		vfAssert(hdrErr == nil, "header-available")
+		vfAssert(len(hdr["k"]) == 2 && hdr["k"][0] == v1 && hdr["k"][1] == v2, "header-values-in-SetHeader-order")
+		vfAssert(len(hdr["x-bin"]) == 1 && hdr["x-bin"][0] == b1, "binary-header-byte-exact")
+		if mode == 2 {
+			vfAssert(len(hdr["late"]) == 1, "SendHeader-metadata-included")
+		}
+		vfAssert(len(trl["t"]) == 1 && trl["t"][0] == t1, "trailer-arrives")
+		vfReach("checked")
+	})
 }
